@@ -33,6 +33,15 @@ type caseDesc struct {
 	Move      bool   `json:"move,omitempty"` // large memory that moves on every grow
 	DeclMax   bool   `json:"declmax,omitempty"` // unshared memory with a declared maximum (min < max)
 	CapMax    string `json:"capmax,omitempty"`  // "" | "on" (WithMemoryCapacityFromMax) | "shared-cache" (compiled by a runtime with it, run by one without, same CompilationCache)
+	Link      string `json:"link,omitempty"`    // declared-vs-defined memory type of an import (see links in gen.go); "" = identical
+}
+
+// memName is the memory-kind part of signatures: the kind of the DEFINITION, plus the link variant if any.
+func memName(kind int, link string) string {
+	if link != "" {
+		return memKindNames[kind] + "(link:" + link + ")"
+	}
+	return memKindNames[kind]
 }
 
 func (c caseDesc) String() string {
@@ -44,6 +53,9 @@ func (c caseDesc) String() string {
 	}
 	if c.CapMax != "" {
 		c.Mem += "(capacity-from-max:" + c.CapMax + ")"
+	}
+	if c.Link != "" {
+		c.Mem += "(link:" + c.Link + ")"
 	}
 	return fmt.Sprintf("%s mem=%s pages=%d %s off=%#x form=%s base=%#x placement=%s cond=%d", c.Engine, c.Mem, c.Pages, c.Op, c.Off, c.Form, c.Base, c.Placement, c.Cond)
 }
@@ -57,6 +69,7 @@ type batch struct {
 	Level  int       `json:"level"` // 0 = full product, 1 = reduced placements/forms, 2 = all placements x reduced forms, 3 = call/grow placements x reduced forms
 	DeclMax bool     `json:"declmax,omitempty"`
 	CapMax string    `json:"capmax,omitempty"`
+	Link   string    `json:"link,omitempty"` // import link variant (declared vs defined memory type); Kind/DeclMax describe the definition
 	Move   bool      `json:"move,omitempty"` // large memories: move on every grow (small ones always do)
 	FewConst bool    `json:"fewconst,omitempty"` // quick tier: constant-base functions only for the decisive bases
 	Prune  bool      `json:"prune,omitempty"` // quick tier: do not execute cases in which an earlier access traps before the access under test
@@ -65,10 +78,29 @@ type batch struct {
 
 func (b *batch) huge() bool { return b.Pages > 64 }
 
+func (b *batch) link() *linkDef {
+	if b.Link == "" {
+		return nil
+	}
+	l := linkByName(b.Link)
+	if l == nil {
+		harnessDie("unknown link %q", b.Link)
+	}
+	return l
+}
+
+// maxPages is the maximum of the memory the programs actually run on (the definition).
+func (b *batch) maxPages() uint32 {
+	if l := defLimits(b.Kind, b.Pages, b.DeclMax, b.link()); l.HasMax {
+		return l.Max
+	}
+	return 65536
+}
+
 func (b *batch) sizes(pl *placement) (pre, final uint64) {
 	pre = uint64(b.Pages) * wasmPage
 	final = pre
-	if pl.Grows && b.Pages < maxPagesOf(b.Kind, b.Pages, b.DeclMax) {
+	if pl.Grows && b.Pages < b.maxPages() {
 		final += wasmPage
 	}
 	return
@@ -159,7 +191,7 @@ type oneCase struct {
 
 func (b *batch) desc(c *oneCase) caseDesc {
 	return caseDesc{Engine: b.Engine, Mem: memKindNames[b.Kind], Pages: b.Pages, Op: b.Op, Off: c.spec.Off, Form: c.spec.Form.String(),
-		Placement: c.spec.Pl.Name, Base: c.eff, Cond: c.cond, Move: b.Move, DeclMax: b.DeclMax, CapMax: b.CapMax}
+		Placement: c.spec.Pl.Name, Base: c.eff, Cond: c.cond, Move: b.Move, DeclMax: b.DeclMax, CapMax: b.CapMax, Link: b.Link}
 }
 
 // cases enumerates the static, deterministic case list of a batch.
@@ -243,7 +275,9 @@ type inst struct {
 
 func (in *inst) shared() bool { return in.b.Kind == mkShared || in.b.Kind == mkImportedShared }
 
-func (in *inst) open() {
+// open instantiates the module under test (and the exporter of its memory). For link batches a rejected
+// instantiation of the importer is a legitimate outcome and is returned; everything else is a harness error.
+func (in *inst) open() (linkErr error) {
 	ctx := context.Background()
 	in.alloc = &gAlloc{fixed: in.shared() || (in.b.huge() && !in.b.Move)}
 	actx := experimental.WithMemoryAllocator(ctx, in.alloc)
@@ -252,9 +286,24 @@ func (in *inst) open() {
 		if in.memMod, err = in.rt.InstantiateModule(actx, in.memCode, wazero.NewModuleConfig().WithName("mem")); err != nil {
 			harnessDie("instantiate memory module: %v", err)
 		}
+		if l := in.b.link(); l != nil && l.PreGrow > 0 {
+			// the exporter's memory has grown past its declared minimum before the importer is linked to it
+			if _, ok := in.memMod.Memory().Grow(l.PreGrow); !ok {
+				harnessDie("pre-grow of the exported memory failed")
+			}
+		}
 	}
 	if in.mod, err = in.rt.InstantiateModule(actx, in.code, wazero.NewModuleConfig().WithName("")); err != nil {
-		harnessDie("instantiate: %v", err)
+		if in.b.Link == "" {
+			harnessDie("instantiate: %v", err)
+		}
+		in.mod = nil
+		in.memMod.Close(ctx)
+		in.memMod = nil
+		if len(in.alloc.mems) != 1 || !in.alloc.mems[0].freed {
+			harnessDie("memory of the exporter not freed after a rejected link")
+		}
+		return err
 	}
 	if len(in.alloc.mems) != 1 {
 		harnessDie("allocator saw %d memories", len(in.alloc.mems))
@@ -264,7 +313,7 @@ func (in *inst) open() {
 	if in.gm.size != size {
 		harnessDie("initial size %d, want %d", in.gm.size, size)
 	}
-	in.m = &memModel{size: size, maxPages: uint64(maxPagesOf(in.b.Kind, in.b.Pages, in.b.DeclMax)), shared: in.shared(), small: !in.b.huge()}
+	in.m = &memModel{size: size, maxPages: uint64(in.b.maxPages()), shared: in.shared(), small: !in.b.huge()}
 	if in.m.small {
 		real := in.gm.slice()
 		paint(real, 0)
@@ -276,6 +325,15 @@ func (in *inst) open() {
 		if in.pat == nil {
 			in.pat = map[uint64][]byte{}
 		}
+	}
+	return nil
+}
+
+// reopen starts over with a fresh instance (the link was accepted before, so it must be accepted again).
+func (in *inst) reopen() {
+	in.close()
+	if err := in.open(); err != nil {
+		harnessDie("link %q accepted first and rejected later: %v", in.b.Link, err)
 	}
 }
 
@@ -324,8 +382,7 @@ func (in *inst) reset() {
 	}
 	if in.gm.size/wasmPage >= in.m.maxPages {
 		// cannot be shrunk through the grow hook: start over with a fresh instance
-		in.close()
-		in.open()
+		in.reopen()
 		return
 	}
 	// The allocator answers the next Reallocate with a buffer of the initial size: wazero publishes whatever
@@ -438,7 +495,7 @@ func faultSig(kind string, c caseDesc) string {
 		ip = "0"
 	}
 	// engine:fault:mem=<kind>:initial-pages=<class>:<placement>:form=<form>:<base class>:<check class>
-	return fmt.Sprintf("%s:%s:mem=%s:initial-pages=%s:%s:form=%s:%s:%s", c.Engine, kind, c.Mem, ip, c.Placement, c.Form, msb, pc)
+	return fmt.Sprintf("%s:%s:mem=%s:initial-pages=%s:%s:form=%s:%s:%s", c.Engine, kind, memName(memKindByName(c.Mem), c.Link), ip, c.Placement, c.Form, msb, pc)
 }
 
 // ---------------------------------------------------------------- running one item
@@ -485,7 +542,7 @@ func runItem(b *batch, from int, skip []int, prog *progress, itemIdx int, touchE
 	}
 	ctx := context.Background()
 	t0 := time.Now()
-	bin := buildModule(b.Kind, b.Pages, b.DeclMax, specs)
+	bin := buildModule(b.Kind, b.Pages, b.DeclMax, b.link(), specs)
 	res.GenMs = time.Since(t0).Milliseconds()
 	t0 = time.Now()
 	var rt wazero.Runtime
@@ -514,13 +571,22 @@ func runItem(b *batch, from int, skip []int, prog *progress, itemIdx int, touchE
 	defer code.Close(ctx)
 	in := &inst{b: b, rt: rt, code: code}
 	if b.Kind == mkImported || b.Kind == mkImportedShared {
-		if in.memCode, err = rt.CompileModule(ctx, buildMemModule(b.Kind, b.Pages, b.DeclMax)); err != nil {
+		if in.memCode, err = rt.CompileModule(ctx, buildMemModule(b.Kind, b.Pages, b.DeclMax, b.link())); err != nil {
 			harnessDie("memory module rejected: %v", err)
 		}
 		defer in.memCode.Close(ctx)
 	}
 	res.Funcs = int64(len(specs))
-	in.open()
+	if lerr := in.open(); lerr != nil {
+		// the link was rejected: no code of the importer can run, the property holds vacuously for this configuration.
+		// One evaluation (the instantiation), never counted as non-trivial.
+		res.Cases = 1
+		res.Out["link-rejected:"+b.Link]++
+		return res
+	}
+	if b.Link != "" {
+		res.Out["link-accepted:"+b.Link]++
+	}
 	defer func() {
 		if in.mod != nil {
 			in.close()
@@ -541,7 +607,7 @@ func runItem(b *batch, from int, skip []int, prog *progress, itemIdx int, touchE
 		})
 		if len(stray) > 0 {
 			d := b.desc(upTo)
-			res.violation(fmt.Sprintf("%s:stray-touch:pages=%s:%s:mem=%s", b.Engine, pagesClass(in.gm.size/wasmPage), upTo.spec.Op.Class, memKindNames[b.Kind]),
+			res.violation(fmt.Sprintf("%s:stray-touch:pages=%s:%s:mem=%s", b.Engine, pagesClass(in.gm.size/wasmPage), upTo.spec.Op.Class, memName(b.Kind, b.Link)),
 				fmt.Sprintf("pages of the linear memory that no access of cases %d..%d addresses were touched (4 KiB page numbers %v)", firstSinceTouch, upTo.seq, stray[:min(len(stray), 8)]), d)
 			for _, p := range stray {
 				in.known[p*osPage/chunk] = true
@@ -630,12 +696,12 @@ func runItem(b *batch, from int, skip []int, prog *progress, itemIdx int, touchE
 			pc := "pages=" + pagesClass(in.m.size/wasmPage)
 			var attrs string
 			if class == "spurious-oob" || class == "wrong-trap-oob" {
-				attrs = fmt.Sprintf("%s:mem=%s:%s", pc, memKindNames[b.Kind], s.Op.Class)
+				attrs = fmt.Sprintf("%s:mem=%s:%s", pc, memName(b.Kind, b.Link), s.Op.Class)
 			} else {
 				if exp.AccRan && exp.EA+s.width() == 1<<32 {
 					pc += ":end==2^32"
 				}
-				attrs = fmt.Sprintf("%s:%s:mem=%s", pc, s.Op.Class, memKindNames[b.Kind])
+				attrs = fmt.Sprintf("%s:%s:mem=%s", pc, s.Op.Class, memName(b.Kind, b.Link))
 			}
 			res.violation(b.Engine+":"+class+":"+attrs, d.String()+": "+what, d)
 		}
@@ -686,8 +752,7 @@ func runItem(b *batch, from int, skip []int, prog *progress, itemIdx int, touchE
 		// 2. memory: size, content
 		if in.gm.size != in.m.size {
 			viol("size-mismatch", fmt.Sprintf("memory is %d bytes after the case, reference %d", in.gm.size, in.m.size))
-			in.close()
-			in.open()
+			in.reopen()
 			continue
 		}
 		if msg := in.verify(wins); msg != "" && !violated {
@@ -702,8 +767,7 @@ func runItem(b *batch, from int, skip []int, prog *progress, itemIdx int, touchE
 			if !in.m.small {
 				touchCheck(c)
 			}
-			in.close()
-			in.open()
+			in.reopen()
 		}
 		// 3. page-granular guard for large memories
 		if !in.m.small {
@@ -731,7 +795,7 @@ func runItem(b *batch, from int, skip []int, prog *progress, itemIdx int, touchE
 		}
 		if len(bad) > 0 {
 			sort.Slice(bad, func(i, j int) bool { return bad[i] < bad[j] })
-			res.violation(fmt.Sprintf("%s:memory-mismatch-batch:pages=%s:%s:mem=%s", b.Engine, pagesClass(uint64(b.Pages)), opByName(b.Op).Class, memKindNames[b.Kind]),
+			res.violation(fmt.Sprintf("%s:memory-mismatch-batch:pages=%s:%s:mem=%s", b.Engine, pagesClass(uint64(b.Pages)), opByName(b.Op).Class, memName(b.Kind, b.Link)),
 				fmt.Sprintf("after the batch, 64 KiB chunks %v no longer hold the fill pattern although every case restored what it was allowed to write", bad), lastDesc)
 		}
 	}
